@@ -20,6 +20,8 @@ Failed(r) ==
                  Clause("roundtrip_values_differ", Vm!SameSeq(r.back, want))
                  \cup Clause("second_parse_differs", Vm!SameSeq(r.back2, want))
                  \cup Clause("first_result_changed_by_second_parse", r.back_again = TRUE)
+                 \* the caller went on to use the parsed builders (stored into them): the cell it parsed from is what it was
+                 \cup Clause("source_cell_changed_by_using_the_parsed_values", Has(r, "src_same") => r.src_same = TRUE)
 TInit == KitInit
 TNext == KitNext(Failed)
 =============================================================================
